@@ -2505,4 +2505,237 @@ theorem verifyRRSIGWork_verdict (g : Gov) (zone : Bytes) (m : VMsg)
                 simp [hrr']
 end
 
+/-! ### VerifyDSWithWork under a governor -/
+
+theorem dsCandLoop_bounds (dm : DKey → Bool) (g : Gov) : ∀ (l : List DKey) (cu b : Nat), b ≤ g.budget →
+    b ≤ (dsCandLoop dm g l cu b).2 ∧ (dsCandLoop dm g l cu b).2 ≤ g.budget := by
+  intro l
+  induction l with
+  | nil => intro cu b h; simp [dsCandLoop]; exact h
+  | cons k t ih =>
+    intro cu b h
+    unfold dsCandLoop
+    by_cases h1 : g.maxCand ≤ cu
+    · simp [h1]; exact h
+    · by_cases h3 : g.budget ≤ b
+      · simp [h1, h3]; exact h
+      · by_cases h4 : dm k = true
+        · simp [h1, h3, h4]; omega
+        · simp only [h1, h3, h4, if_false, Bool.false_eq_true]
+          have := ih (cu + 1) (b + 1) (by omega)
+          omega
+
+theorem dsCandLoop_mono (dm : DKey → Bool) (g g' : Gov) (hle : govLe g g') : ∀ (l : List DKey) (cu b : Nat),
+    (dsCandLoop dm g l cu b).1 ≠ WRes.work → dsCandLoop dm g' l cu b = dsCandLoop dm g l cu b := by
+  intro l
+  induction l with
+  | nil => intro cu b _; simp [dsCandLoop]
+  | cons k t ih =>
+    intro cu b h
+    unfold dsCandLoop at h ⊢
+    obtain ⟨l1, _, l3⟩ := hle
+    by_cases h1 : g.maxCand ≤ cu
+    · simp [h1] at h
+    · by_cases h3 : g.budget ≤ b
+      · simp [h1, h3] at h
+      · have h1' : ¬ g'.maxCand ≤ cu := by omega
+        have h3' : ¬ g'.budget ≤ b := by omega
+        by_cases h4 : dm k = true
+        · simp [h1, h3, h1', h3', h4]
+        · simp only [h1, h3, h1', h3', h4, if_false, Bool.false_eq_true] at h ⊢
+          exact ih _ _ h
+
+theorem dsCandLoop_verdict (dm : DKey → Bool) (g : Gov) : ∀ (l : List DKey) (cu b : Nat),
+    (dsCandLoop dm g l cu b).1 ≠ WRes.work → ((dsCandLoop dm g l cu b).1 = WRes.ok ↔ ∃ k ∈ l, dm k = true) := by
+  intro l
+  induction l with
+  | nil => intro cu b _; simp [dsCandLoop]
+  | cons k t ih =>
+    intro cu b h
+    unfold dsCandLoop at h ⊢
+    by_cases h1 : g.maxCand ≤ cu
+    · simp [h1] at h
+    · by_cases h3 : g.budget ≤ b
+      · simp [h1, h3] at h
+      · by_cases h4 : dm k = true
+        · simp [h1, h3, h4]
+        · simp only [h1, h3, h4, if_false, Bool.false_eq_true] at h ⊢
+          rw [ih _ _ h]; simp [h4]
+
+section
+variable (sup : DSRec → Bool) (dmatch : DKey → Nat → Bytes → Bool) (limit : Nat) (keys : List DKey)
+
+theorem dsOneWork_bounds (g : Gov) (d : DSRec) (b : Nat) (h : b ≤ g.budget) :
+    b ≤ (dsOneWork sup dmatch limit keys g d b).2 ∧ (dsOneWork sup dmatch limit keys g d b).2 ≤ g.budget := by
+  unfold dsOneWork
+  simp only
+  split
+  · exact ⟨Nat.le_refl _, h⟩
+  · split
+    · exact ⟨Nat.le_refl _, h⟩
+    · split
+      · exact ⟨Nat.le_refl _, h⟩
+      · split
+        · exact ⟨Nat.le_refl _, h⟩
+        · exact dsCandLoop_bounds _ g _ 0 b h
+
+theorem dsOneWork_mono (g g' : Gov) (hle : govLe g g') (d : DSRec) (b : Nat)
+    (h : (dsOneWork sup dmatch limit keys g d b).1 ≠ WRes.work) :
+    dsOneWork sup dmatch limit keys g' d b = dsOneWork sup dmatch limit keys g d b := by
+  unfold dsOneWork at h ⊢
+  simp only at h ⊢
+  by_cases hs : sup d = true
+  · simp only [hs, Bool.not_true, Bool.false_eq_true, if_false] at h ⊢
+    by_cases hc : (uniqueSortedDKeys (keys.filter (usableDSCandidate limit d))).isEmpty = true
+    · simp [hc]
+    · simp only [hc, Bool.false_eq_true, if_false] at h ⊢
+      cases hd : hexDecode d.digest with
+      | none => simp
+      | some want =>
+        simp only [hd] at h ⊢
+        by_cases hw : want.isEmpty = true
+        · simp [hw]
+        · simp only [hw, Bool.false_eq_true, if_false] at h ⊢
+          exact dsCandLoop_mono _ g g' hle _ 0 b h
+  · have hs' : sup d = false := by simpa using hs
+    simp [hs']
+
+theorem exists_uniqueSortedDKeys (P : DKey → Prop) (hP : ∀ a b, dkeyIdent a = dkeyIdent b → (P a ↔ P b)) (l : List DKey) :
+    (∃ k ∈ uniqueSortedDKeys l, P k) ↔ ∃ k ∈ l, P k := by
+  unfold uniqueSortedDKeys
+  split
+  · rfl
+  · exact exists_sortDedup dkeyIdent dkeyLt P hP l
+
+/-- without a work error one DS of the governed walk says whether it authenticates a key. -/
+theorem dsOneWork_verdict (g : Gov) (d : DSRec) (b : Nat)
+    (hdm : ∀ k k' dt w, dkeyIdent k = dkeyIdent k' → dmatch k dt w = dmatch k' dt w)
+    (h : (dsOneWork sup dmatch limit keys g d b).1 ≠ WRes.work) :
+    (dsOneWork sup dmatch limit keys g d b).1 = WRes.ok ↔ dsAuthenticates sup dmatch limit keys d = true := by
+  unfold dsOneWork at h ⊢
+  unfold dsAuthenticates
+  simp only at h ⊢
+  by_cases hs : sup d = true
+  · simp only [hs, Bool.not_true, Bool.false_eq_true, if_false, Bool.true_and] at h ⊢
+    by_cases hc : (uniqueSortedDKeys (keys.filter (usableDSCandidate limit d))).isEmpty = true
+    · have hnil : uniqueSortedDKeys (keys.filter (usableDSCandidate limit d)) = [] := by simpa using hc
+      have hno : ¬ ∃ k ∈ keys.filter (usableDSCandidate limit d), True := by
+        intro hx
+        have := (exists_uniqueSortedDKeys (fun _ => True) (fun _ _ _ => Iff.rfl) _).mpr hx
+        rw [hnil] at this; obtain ⟨_, hk, _⟩ := this; cases hk
+      have hf : keys.filter (usableDSCandidate limit d) = [] := by
+        cases hx : keys.filter (usableDSCandidate limit d) with
+        | nil => rfl
+        | cons a _ => exact absurd ⟨a, by rw [hx]; simp, trivial⟩ hno
+      simp only [hc, if_true]
+      rw [hf]
+      cases hexDecode d.digest <;> simp
+    · simp only [hc, Bool.false_eq_true, if_false] at h ⊢
+      cases hd : hexDecode d.digest with
+      | none => simp
+      | some want =>
+        simp only [hd] at h ⊢
+        by_cases hw : want.isEmpty = true
+        · simp [hw]
+        · simp only [hw, Bool.false_eq_true, if_false, Bool.not_false, Bool.true_and] at h ⊢
+          rw [dsCandLoop_verdict _ g _ 0 b h, List.any_eq_true]
+          exact exists_uniqueSortedDKeys (fun k => dmatch k d.dt want = true)
+            (fun a b hab => by simp only [hdm a b d.dt want hab]) _
+  · have hs' : sup d = false := by simpa using hs
+    simp [hs']
+end
+
+theorem dsLoopWork_bounds (one : DSRec → Nat → WRes × Nat) (B : Nat)
+    (hone : ∀ d b, b ≤ B → b ≤ (one d b).2 ∧ (one d b).2 ≤ B) : ∀ (l : List DSRec) (b : Nat), b ≤ B →
+    b ≤ (dsLoopWork one l b).2 ∧ (dsLoopWork one l b).2 ≤ B := by
+  intro l
+  induction l with
+  | nil => intro b h; simp [dsLoopWork]; exact h
+  | cons d t ih =>
+    intro b h
+    unfold dsLoopWork
+    have hb := hone d b h
+    rcases hr : one d b with ⟨r, b'⟩
+    rw [hr] at hb
+    cases r with
+    | ok => simpa using hb
+    | work => simpa using hb
+    | fail => simp only; have := ih b' hb.2; exact ⟨Nat.le_trans hb.1 this.1, this.2⟩
+
+theorem dsLoopWork_mono (one one' : DSRec → Nat → WRes × Nat)
+    (hone : ∀ d b, (one d b).1 ≠ WRes.work → one' d b = one d b) : ∀ (l : List DSRec) (b : Nat),
+    (dsLoopWork one l b).1 ≠ WRes.work → dsLoopWork one' l b = dsLoopWork one l b := by
+  intro l
+  induction l with
+  | nil => intro b _; simp [dsLoopWork]
+  | cons d t ih =>
+    intro b h
+    unfold dsLoopWork at h ⊢
+    rcases hr : one d b with ⟨r, b'⟩
+    rw [hr] at h
+    cases r with
+    | ok => rw [hone d b (by rw [hr]; simp), hr]
+    | work => simp at h
+    | fail => rw [hone d b (by rw [hr]; simp), hr]; simp only at h ⊢; exact ih b' h
+
+theorem dsLoopWork_verdict (one : DSRec → Nat → WRes × Nat) (V : DSRec → Prop)
+    (hone : ∀ d b, (one d b).1 ≠ WRes.work → ((one d b).1 = WRes.ok ↔ V d)) : ∀ (l : List DSRec) (b : Nat),
+    (dsLoopWork one l b).1 ≠ WRes.work → ((dsLoopWork one l b).1 = WRes.ok ↔ ∃ d ∈ l, V d) := by
+  intro l
+  induction l with
+  | nil => intro b _; simp [dsLoopWork]
+  | cons d t ih =>
+    intro b h
+    unfold dsLoopWork at h ⊢
+    have hd := hone d b
+    rcases hr : one d b with ⟨r, b'⟩
+    rw [hr] at h hd
+    cases r with
+    | ok => simp only [true_iff]; exact ⟨d, by simp, (hd (by simp)).mp rfl⟩
+    | work => simp at h
+    | fail =>
+      simp only at h ⊢
+      have hv : ¬ V d := fun hv => by have := (hd (by simp)).mpr hv; cases this
+      rw [ih b' h]
+      constructor
+      · rintro ⟨x, hx, hp⟩; exact ⟨x, List.mem_cons_of_mem _ hx, hp⟩
+      · rintro ⟨x, hx, hp⟩
+        rcases List.mem_cons.mp hx with rfl | hx
+        · exact absurd hp hv
+        · exact ⟨x, hx, hp⟩
+
+section
+variable (sup : DSRec → Bool) (dmatch : DKey → Nat → Bytes → Bool) (limit : Nat) (keys : List DKey)
+
+theorem verifyDSWork_budget (g : Gov) (dss : List DSRec) : (verifyDSWork sup dmatch limit keys g dss).2 ≤ g.budget :=
+  (dsLoopWork_bounds _ g.budget (fun d b h => dsOneWork_bounds sup dmatch limit keys g d b h) _ 0 (Nat.zero_le _)).2
+
+theorem verifyDSWork_mono (g g' : Gov) (hle : govLe g g') (dss : List DSRec)
+    (h : (verifyDSWork sup dmatch limit keys g dss).1 ≠ WRes.work) :
+    verifyDSWork sup dmatch limit keys g' dss = verifyDSWork sup dmatch limit keys g dss :=
+  dsLoopWork_mono _ _ (fun d b hd => dsOneWork_mono sup dmatch limit keys g g' hle d b hd) _ 0 h
+
+/-- without a work error the governed DS walk is `VerifyDS`. -/
+theorem verifyDSWork_verdict (g : Gov) (dss : List DSRec)
+    (hdm : ∀ k k' dt w, dkeyIdent k = dkeyIdent k' → dmatch k dt w = dmatch k' dt w)
+    (hds : ∀ d d', dsIdent d = dsIdent d' → dsAuthenticates sup dmatch limit keys d = dsAuthenticates sup dmatch limit keys d')
+    (h : (verifyDSWork sup dmatch limit keys g dss).1 ≠ WRes.work) :
+    (verifyDSWork sup dmatch limit keys g dss).1 = WRes.ok ↔ (verifyDS sup dmatch limit keys dss).2 = true := by
+  unfold verifyDSWork at h ⊢
+  rw [dsLoopWork_verdict _ (fun d => dsAuthenticates sup dmatch limit keys d = true)
+    (fun d b hd => dsOneWork_verdict sup dmatch limit keys g d b hdm hd) _ 0 h]
+  have hiff : (verifyDS sup dmatch limit keys dss).2 = true ↔ ∃ d ∈ dss, dsAuthenticates sup dmatch limit keys d = true := by
+    unfold verifyDS
+    have hf := (foldl_verifyDS sup dmatch limit keys dss {} rfl).1
+    simp only
+    by_cases hm : (dss.foldl (verifyDSStep sup dmatch limit keys) {}).matched = true
+    · simp only [hm, if_true, true_iff]; exact hf.mp hm
+    · simp only [hm, Bool.false_eq_true, if_false]
+      have : ¬ ∃ d ∈ dss, dsAuthenticates sup dmatch limit keys d = true := fun hx => hm (hf.mpr hx)
+      split <;> (try split) <;> simp [this]
+  rw [hiff]
+  unfold uniqueSortedDS
+  exact exists_sortDedup dsIdent dsLt _ (fun a b hab => by simp only [hds a b hab]) _
+end
+
 end SdnsVerif.Lemmas.DnssecPrim
